@@ -541,6 +541,23 @@ def r_ctor_guards(rep, prog):
         has_align = any(T.mentions_call(c, "ptr_const::align_offset") or T.mentions_call(c, "usize::is_multiple_of") for c in conds)
         rep.check(has_len, rule, "%s|length-guard" % fn, "length guard present", "no guard on the buffer length", b.span)
         rep.check(has_align, rule, "%s|align-guard" % fn, "alignment guard present", "no guard on the buffer alignment", b.span)
+        # every guard decides: the success continuation is reachable from one outcome of each length/alignment test only
+        # (`short || misaligned` -> error; with `&&` a short but aligned buffer would pass)
+        okret = [bi for bi, si, rv in lib.assignments_to_return(b) if si != "term" and tm.rvalue(rv)[0] == "agg"
+                 and tm.rvalue(rv)[1].startswith("adt:core::result::Result::Ok")]
+        for s_ in range(b.nblocks()):
+            if b.term(s_)["k"] != "switch" or not okret:
+                continue
+            c = tm.operand(b.term(s_)["discr"])
+            is_guard = (T.mentions_call(c, "slice::len") or T.mentions_call(c, "core::mem::size_of_val")
+                        or T.mentions_call(c, "ptr_const::align_offset") or T.mentions_call(c, "usize::is_multiple_of"))
+            if not is_guard or not any(e in cfg.reachable_from(b, s_) for e in errs):
+                continue
+            passing = [d_ for d_ in b.succ(s_) if any(o in cfg.reachable_from(b, d_) for o in okret)]
+            rep.check(len(passing) == 1, rule, "%s|guard-decides|%s" % (fn, "len" if "len" in T.show(c) or "size_of_val" in T.show(c) else "align"),
+                      "success is reachable from one outcome of the test only",
+                      "%s succeeds on both outcomes of `%s` (conditions joined with && instead of ||): a buffer that fails this test "
+                      "alone is accepted" % (fn.split("::")[-2] + "::" + fn.split("::")[-1], T.show(c)[:80]), b.term(s_).get("span"))
         # no unsafe view before the guard: from_raw_parts* calls are not reachable on the error paths
         ps = PathSens(b, prog)
         views = [bi for bi, t in b.calls() if (callee_name(t["callee"]) or "").startswith("core::slice::raw::from_raw_parts")]
